@@ -208,7 +208,8 @@ class TypeDB:
                 for t in non_none[1:]:
                     cb = self.common_base(cb, t.cls)
             except Unsupported:
-                cb = "*"  # unrelated classes: any reference, discriminated by the class tag
+                # unrelated classes: a reference discriminated by the class tag, restricted to these classes
+                cb = "*{" + "|".join(t.cls for t in non_none) + "}"
             non_none = [TObj(cb)]
         if len(non_none) == 1:
             return TOpt(non_none[0]) if has_none else non_none[0]
@@ -217,7 +218,7 @@ class TypeDB:
         return TUnion(non_none + ([TNone] if has_none else []))
 
     def common_base(self, a: str, b: str) -> str:
-        if a == "*" or b == "*":
+        if a.startswith("*") or b.startswith("*"):
             return "*"
         ma = self.w.mro(a)
         mb = self.w.mro(b)
